@@ -19,6 +19,9 @@ pub struct ReproProp;
 pub enum ROp {
     Add(&'static str),
     Union(&'static str, &'static str),
+    /// all the terms united into one class (eight equal-cost composite e-nodes that differ in a Symbol payload only: which
+    /// one a hash set yields first depends on the symbols' table numbers)
+    UnionMany(&'static [&'static str]),
     Rw(usize),
     Match(&'static str),
     Extract,
@@ -50,6 +53,8 @@ pub fn alphabet() -> Vec<ROp> {
         // (a and y, c and h fall into the same shard of the symbol table: their table numbers compare by first mention)
         ROp::Union("a", "y"),
         ROp::Union("c", "h"),
+        // two equal-cost composite e-nodes that differ in a Symbol payload only (a and y: same shard)
+        ROp::UnionMany(&["(call f (var $x))", "(call g (var $x))", "(call a (var $x))", "(call b (var $x))", "(call c (var $x))", "(call h (var $x))", "(call map (var $x))", "(call zero (var $x))"]),
         ROp::Union("(app (app h (var $x)) (var $y))", "(app (app h (var $y)) (var $x))"),
         ROp::Union("(mul a (var $x))", "zero"),
         ROp::Add("(app (app (app h (var $x)) (var $y)) (var $x))"),
@@ -61,6 +66,8 @@ pub fn alphabet() -> Vec<ROp> {
         ROp::Rw(3),
         // a user slot spelled like a fresh slot next to an ordinary named slot
         ROp::Add("(mul (var $f2) (var $x))"),
+        // fresh-looking names only (no ordinary named slot in the text)
+        ROp::Add("(mul (var $f9) (lam $f4 (var $f4)))"),
         ROp::Add("(add (var $x) (add (var $y) (add (var $z) (add a b))))"),
         ROp::RunEqsat,
         ROp::Match("(app ?f ?x)"),
@@ -74,6 +81,7 @@ pub fn show(o: &ROp) -> String {
     match o {
         ROp::Add(t) => format!("add {t}"),
         ROp::Union(a, b) => format!("union {a} = {b}"),
+        ROp::UnionMany(ts) => format!("union {}", ts.join(" = ")),
         ROp::Rw(i) => format!("rewrite-iteration {}", rsets()[*i].0),
         ROp::Match(p) => format!("ematch {p}"),
         ROp::Extract => "extract every class".into(),
@@ -170,6 +178,8 @@ pub fn interferer_strings() -> Vec<String> {
     out
 }
 
+const SECOND_REPLAY_MARKER: &str = "=====second-replay-in-the-same-process=====";
+
 /// The child process: executes one history under one schedule and replica kind, prints the transcript.
 pub fn c20run_main(args: &[String]) -> i32 {
     // args: depth idx schedule(comma separated gaps or "-") replica interferer-strings(comma separated)
@@ -179,6 +189,15 @@ pub fn c20run_main(args: &[String]) -> i32 {
     let replica: usize = args[3].parse().unwrap();
     let istrings: Vec<String> = if args.len() > 4 && args[4] != "-" { args[4].split(',').map(|s| s.to_string()).collect() } else { vec![] };
     let ops: Vec<ROp> = decode(depth, idx).into_iter().map(|i| alphabet()[i].clone()).collect();
+    if replica == 3 {
+        // the same history twice in ONE process, each time in a fresh thread: whatever the first replay leaves behind in
+        // process-wide state (caches, counters, tables) must not show in the second; the parent reads the text after the marker
+        let (o1, s1, i1) = (ops.clone(), sched.clone(), istrings.clone());
+        std::thread::spawn(move || run_history(&o1, &s1, &i1, 1)).join().unwrap();
+        println!("{SECOND_REPLAY_MARKER}");
+        std::thread::spawn(move || run_history(&ops, &sched, &istrings, 1)).join().unwrap();
+        return 0;
+    }
     let body = move || run_history(&ops, &sched, &istrings, replica);
     if replica == 0 {
         body();
@@ -280,6 +299,15 @@ fn run_history(ops: &[ROp], sched: &[usize], istrings: &[String], replica: usize
                 println!("op{i} union {a:?} {b:?} -> {ch}");
                 last = Some(a);
             }
+            ROp::UnionMany(ts) => {
+                let first = eg.add_expr(RecExpr::parse(ts[0]).unwrap());
+                for t in &ts[1..] {
+                    let b = eg.add_expr(RecExpr::parse(t).unwrap());
+                    let ch = eg.union(&first, &b);
+                    println!("op{i} union {first:?} {b:?} -> {ch}");
+                }
+                last = Some(first);
+            }
             ROp::Rw(k) => {
                 let rules: Vec<Rewrite<Arith>> = rsets()[*k].1.iter().map(|(n, a, b)| Rewrite::new(n, a, b)).collect();
                 let ch = apply_rewrites(&mut eg, &rules);
@@ -371,7 +399,13 @@ fn run_child(cfg: &str, depth: u32, idx: u64, sched: &[usize], replica: usize, i
     }
     let err = String::from_utf8_lossy(&out.stderr);
     let symids = err.lines().find(|l| l.starts_with("SYMIDS")).unwrap_or("").to_string();
-    Ok((String::from_utf8_lossy(&out.stdout).to_string(), symids))
+    let text = String::from_utf8_lossy(&out.stdout).to_string();
+    if replica == 3 {
+        let marker = format!("{SECOND_REPLAY_MARKER}\n");
+        let Some(pos) = text.find(&marker) else { return Err("second replay did not start".into()) };
+        return Ok((text[pos + marker.len()..].to_string(), symids));
+    }
+    Ok((text, symids))
 }
 
 impl Prop for ReproProp {
@@ -389,7 +423,7 @@ impl Prop for ReproProp {
     }
     fn budget_s(&self, tier: Tier) -> u64 {
         match tier {
-            Tier::Quick => 50,
+            Tier::Quick => 75,
             Tier::Thorough => 1500,
         }
     }
@@ -401,7 +435,7 @@ impl Prop for ReproProp {
         vec!["interferer_shifted_a_symbol_id", "history_with_rewrite_iteration", "history_with_match_list", "noise_thread_replica_run"]
     }
     fn rule(&self) -> String {
-        "Every history (ordered sequence) of the stated length over insert / union / rewrite-iteration / ematch / extract operations on the Symbol-carrying Arith language is executed, EACH EXECUTION IN ITS OWN PROCESS, under every placement of 2 (thorough: 1, 2 and 3) interning actions of a second real thread into the gaps between the operations (lock-step hand-shake over channels, so the schedule is chosen, not left to the OS; the interned strings are brute-forced to land in the same symbol-table shard as the history's symbols, so that the symbols' numeric ids really change; each action also makes slots of every kind and builds and merges classes in an e-graph of its own) and under three replica kinds: main thread, fresh thread, fresh thread next to two free-running noise threads doing unrelated e-graph work and interning. All transcripts of one history (returned invocations, match lists, extracted terms, class ids, slots, e-nodes, progress, next fresh slot, EGraph::dump() output; in the `expl` configuration also explanation strings) must be byte-identical. Non-trivial = histories with at least one union or rewrite.".into()
+        "Every history (ordered sequence) of the stated length over insert / union / rewrite-iteration / ematch / extract operations on the Symbol-carrying Arith language is executed, EACH EXECUTION IN ITS OWN PROCESS, under every placement of 2 (thorough: 1, 2 and 3) interning actions of a second real thread into the gaps between the operations (lock-step hand-shake over channels, so the schedule is chosen, not left to the OS; the interned strings are brute-forced to land in the same symbol-table shard as the history's symbols, so that the symbols' numeric ids really change; each action also makes slots of every kind and builds and merges classes in an e-graph of its own) and under four replica kinds: main thread, fresh thread, fresh thread next to two free-running noise threads doing unrelated e-graph work, and (for the empty schedule) the SECOND of two replays in one process, each in a fresh thread. All transcripts of one history (returned invocations, match lists, extracted terms, class ids, slots, e-nodes, progress, next fresh slot, EGraph::dump() output; in the `expl` configuration also explanation strings) must be byte-identical. Non-trivial = histories with at least one union or rewrite.".into()
     }
     fn assumptions(&self) -> Vec<String> {
         vec![
@@ -430,12 +464,15 @@ impl Prop for ReproProp {
         let scheds = schedules(ops.len(), tier);
         for (si, sched) in scheds.iter().enumerate() {
             // replica kinds: all three for the empty schedule and the first two non-empty ones, main-thread only otherwise
-            let replicas: Vec<usize> = if si < 3 { vec![0, 1, 2] } else { vec![si % 2] };
+            let replicas: Vec<usize> = if si == 0 { vec![0, 1, 2, 3] } else if si < 3 { vec![0, 1, 2] } else { vec![si % 2] };
             for rep in replicas {
                 out.traces += 1;
                 out.transitions += ops.len() as u64;
-                let label = format!("schedule {sched:?} replica {}", ["main-thread", "fresh-thread", "fresh-thread+noise"][rep]);
-                match run_child(cfg, d, idx, sched, rep, &istrings) {
+                let label = format!("schedule {sched:?} replica {}", ["main-thread", "fresh-thread", "fresh-thread+noise", "second-replay-in-the-same-process"][rep]);
+                // every second schedule interns a batch of foreign same-shard strings BEFORE the history's own names are
+                // mentioned: the table numbers of all the history's symbols then move (not only their relative order)
+                let is_rot: Vec<String> = if si % 2 == 1 && istrings.len() > BATCH { istrings[BATCH..].iter().chain(istrings[..BATCH].iter()).cloned().collect() } else { istrings.clone() };
+                match run_child(cfg, d, idx, sched, rep, &is_rot) {
                     Err(e) => {
                         // a crash that happens in every execution alike is not a reproducibility failure (C08 owns panics);
                         out.aborted.push(format!("child: {e}"));
